@@ -3,6 +3,8 @@ CONSTANTS
   MaxItems = 4
   MaxTags = 6
   ItemKinds = {"code", "str", "cmt"}
+  CommentKinds = {"a"}
+  SplitKinds = FALSE
 INIT Init
 NEXT Next
 INVARIANTS TypeOK ErrIffUnbalanced PairsAreTheMatching SourceOrder StackIsOpenStarts Emit
